@@ -253,11 +253,14 @@ func (r *rewriter) run() {
 		osSel   []*ast.SelectorExpr
 		locks   []lockCall
 		atomics []*ast.CallExpr
+		gos     []*ast.GoStmt
+		wgWaits []*ast.CallExpr
 	)
 	ast.Inspect(r.file, func(n ast.Node) bool {
 		switch x := n.(type) {
 		case *ast.GoStmt:
 			r.rep.GoStmts = append(r.rep.GoStmts, r.site(x.Pos()))
+			gos = append(gos, x)
 		case *ast.RangeStmt:
 			t := r.info.TypeOf(x.X)
 			if t == nil {
@@ -316,6 +319,8 @@ func (r *rewriter) run() {
 					rn := recvTypeName(recv.Type())
 					if (rn == "Mutex" || rn == "RWMutex") && lockNames[fn.Name()] != "" {
 						locks = append(locks, lockCall{x, fn.Name()})
+					} else if rn == "WaitGroup" && fn.Name() == "Wait" {
+						wgWaits = append(wgWaits, x)
 					} else if rn == "Map" {
 						r.rep.Warnings = append(r.rep.Warnings, r.site(x.Pos())+" sync.Map use (iteration order not controlled)")
 					}
@@ -359,6 +364,35 @@ func (r *rewriter) run() {
 		lc.call.Fun = sel("simrt", lockNames[lc.name])
 		lc.call.Args = []ast.Expr{arg, siteLit(s)}
 		r.rep.LockSites++
+		r.need["simrt"] = true
+		r.changed = true
+	}
+	// go f(x)  ->  go simrt.GoRun(simrt.Spawn(site), func() { f(x) })
+	// The spawning task registers the new task with the simulator's scheduler (a scheduling point); the new
+	// goroutine runs only when the seeded schedule grants it the token. Note: the arguments are evaluated by
+	// the new goroutine's closure rather than at the go statement.
+	for _, g := range gos {
+		s := r.site(g.Pos())
+		orig := g.Call
+		g.Call = &ast.CallExpr{Fun: sel("simrt", "GoRun"), Args: []ast.Expr{
+			&ast.CallExpr{Fun: sel("simrt", "Spawn"), Args: []ast.Expr{siteLit(s)}},
+			&ast.FuncLit{Type: &ast.FuncType{Params: &ast.FieldList{}}, Body: &ast.BlockStmt{List: []ast.Stmt{&ast.ExprStmt{X: orig}}}},
+		}}
+		r.need["simrt"] = true
+		r.changed = true
+	}
+	// wg.Wait()  ->  simrt.WGWait(&wg, site)
+	for _, c := range wgWaits {
+		se := c.Fun.(*ast.SelectorExpr)
+		recv := se.X
+		var arg ast.Expr
+		if _, isPtr := r.info.TypeOf(recv).Underlying().(*types.Pointer); isPtr {
+			arg = recv
+		} else {
+			arg = &ast.UnaryExpr{Op: token.AND, X: recv}
+		}
+		c.Fun = sel("simrt", "WGWait")
+		c.Args = []ast.Expr{arg, siteLit(r.site(c.Pos()))}
 		r.need["simrt"] = true
 		r.changed = true
 	}
